@@ -314,6 +314,8 @@ def relations(body, bb, facts=None):
     terms."""
     out = []
     for t, v in bool_facts(body, bb, facts):
+        if t[0] == "call" and t[1] and re.search(r"cmp::PartialOrd(<.*>)?::(lt|le|gt|ge)$", t[1]) and len(t[3]) == 2:
+            t = ("bin", {"lt": "Lt", "le": "Le", "gt": "Gt", "ge": "Ge"}[t[1].rsplit("::", 1)[1]], t[3][0], t[3][1])
         if t[0] != "bin" or t[1] not in ("Lt", "Le", "Gt", "Ge"):
             continue
         op, a, b = t[1], t[2], t[3]
@@ -496,3 +498,21 @@ def interval_of(body, bb, subject_pred, facts=None):
             hi -= 1
             changed = True
     return lo, hi, excl
+
+
+def names_in_term(body, term):
+    """User variable names of the locals a term is built from (including the destinations of calls)."""
+    out = set()
+    for s in walk(term):
+        n = None
+        if s[0] in ("local", "phi") and s[1] >= 0:
+            n = body.var_name(s[1])
+        elif s[0] == "call" and isinstance(s[5], int):
+            dest = body.blocks[s[5]]["t"].get("dest")
+            if dest and len(dest) == 1:
+                n = body.var_name(dest[0])
+        elif s[0] == "arg":
+            n = body.var_name(s[1])
+        if n:
+            out.add(n)
+    return out
